@@ -234,6 +234,40 @@ pub fn call(dec: &mut Decoder, sink: Sink, repl: bool, src: &[u8], cap: usize, l
     o
 }
 
+/// The documented manual error-recovery procedure (C09): the caller's own loop over the without-replacement method,
+/// appending one U+FFFD per Malformed result and re-pushing the rest, on the same (src, capacity, last).
+/// res 'X' = the procedure had no room left for the U+FFFD it has to append.
+pub fn call_manual(dec: &mut Decoder, sink: Sink, src: &[u8], cap: usize, last: bool) -> Obs {
+    let mut o = Obs { same: true, guard: true, cap, ..Default::default() };
+    let repl_units: &[u16] = if sink == Sink::Utf16 { &[0xFFFD] } else { &[0xEF, 0xBF, 0xBD] };
+    loop {
+        let c = call(dec, sink, false, &src[o.read.min(src.len())..], cap - o.written, last, 0x5A, 3, 0);
+        o.guard &= c.guard;
+        if c.res == 'P' {
+            o.res = 'P';
+            return o;
+        }
+        o.read += c.read;
+        o.written += c.written;
+        o.out.extend_from_slice(&c.out);
+        match c.res {
+            'M' => {
+                o.had = true;
+                if cap - o.written < repl_units.len() {
+                    o.res = 'X';
+                    return o;
+                }
+                o.out.extend_from_slice(repl_units);
+                o.written += repl_units.len();
+            }
+            r => {
+                o.res = r;
+                return o;
+            }
+        }
+    }
+}
+
 pub fn query(dec: &Decoder, sink: Sink, repl: bool, n: usize) -> Option<usize> {
     let r = catch_unwind(AssertUnwindSafe(|| match sink {
         Sink::Utf16 => dec.max_utf16_buffer_length(n),
@@ -269,6 +303,7 @@ pub struct HistCfg {
 pub struct Hist<'a> {
     pub cfg: &'a HistCfg,
     pub decs: Vec<Decoder>,
+    pub man: Option<Decoder>, // twin driven by the manual procedure (--manual, replacement histories on raw sinks)
     pub pos: usize,
     pub calls: usize,
     pub eos: bool,
@@ -296,7 +331,8 @@ impl<'a> Hist<'a> {
             bound
         );
         sh.line(&line);
-        Hist { cfg, decs, pos: 0, calls: 0, eos: false, dead: false, line: String::new() }
+        let man = if ov().manual && cfg.repl && (cfg.sink == Sink::Utf8 || cfg.sink == Sink::Utf16) { Some(new_decoder(cfg.enc, cfg.mode)) } else { None };
+        Hist { cfg, decs, man, pos: 0, calls: 0, eos: false, dead: false, line: String::new() }
     }
 
     pub fn latin1(&mut self, sh: &mut Shards, bytes: &[u8]) {
@@ -338,6 +374,10 @@ impl<'a> Hist<'a> {
             obs.push(call(d, cfg.sink, cfg.repl, src, cap, last, fills[i], cfg.unit, cfg.prelen));
         }
         let o = obs[0].clone();
+        let man = match self.man.as_mut() {
+            Some(d) if o.res != 'P' => Some(call_manual(d, cfg.sink, src, cap, last)),
+            _ => None,
+        };
         let s = &mut self.line;
         s.clear();
         s.push_str("{\"ev\":\"D\",\"src\":");
@@ -354,6 +394,14 @@ impl<'a> Hist<'a> {
             s.push('}');
         }
         s.push(']');
+        if let Some(mo) = &man {
+            let _ = write!(s, ",\"man\":{{\"res\":\"{}\",\"read\":{},\"written\":{},\"had\":{},\"out\":", mo.res, mo.read, mo.written, mo.had);
+            js_u16(s, &mo.out);
+            s.push('}');
+            if mo.res == 'P' || mo.res == 'X' {
+                self.man = None;
+            }
+        }
         match cfg.sink {
             Sink::Str => {
                 s.push_str(",\"post\":");
